@@ -157,7 +157,8 @@ def srvOn (sh : Shape) (svc : Svc) : SrvPc → CFr → SrvPc × List SFr
   | .boundary, _ => (.dead, errStream)                        -- not an IPC stream: error reply, then `serve` stops
   | .reqOpen, .it (.req r) => (.reqDrain r, [])
   | .reqOpen, .it _ => (.reqBad, [])
-  | .reqOpen, .eos => (.dead, [])                             -- StopIteration ends the `serve` loop
+  | .reqOpen, .eos =>                                         -- a request stream without a batch
+      if sh.emptyRequestReplies then (.boundary, errStream) else (.dead, [])   -- (else StopIteration ends the `serve` loop)
   | .reqOpen, .op => (.dead, errStream)
   | .reqDrain r, .it _ => (.reqDrain r, [])
   | .reqDrain r, .eos => dispatch sh svc r
